@@ -2,7 +2,7 @@
 //!
 //! Final-state monitor (kmers.counts == reference map, no temp file left) plus history monitors over
 //! the hook log and the temp files listed between count() and merge(): exactly-once record take,
-//! per-chunk conservation, partition discipline.
+//! per-chunk conservation (which partition file a k-mer lands in is not judged).
 
 use crate::common::*;
 use crate::sched::{next_prefix, Controller, Event, Mode, Policy, RunTrace, NONE};
@@ -211,14 +211,8 @@ pub fn check_history(run: &CtrRun, recs: &[Rec], cfg: &CtrCfg, events: &[Event])
     }
     let n_parts = run.temps.iter().map(|t| t.part + 1).max().unwrap_or(0);
     let n_chunks = run.temps.iter().map(|t| t.chunk + 1).max().unwrap_or(0);
-    // partition discipline
-    for t in &run.temps {
-        for &(k, _) in &t.entries {
-            if n_parts > 0 && k % n_parts != t.part {
-                return Err(("ctr.partition".into(), format!("k-mer {} found in partition {} of chunk {} but {} mod {} = {}", k, t.part, t.chunk, k, n_parts, k % n_parts)));
-            }
-        }
-    }
+    // (which partition file a k-mer lands in is an implementation detail - `kmer mod n_parts`, a hash, ... -
+    // and is not judged; what must hold is conservation per chunk, judged on the union of its files)
     // per-chunk conservation: merged partitions of chunk c == reference counts of the records taken in c
     for c in 0..n_chunks {
         let mut got: BTreeMap<u64, u64> = BTreeMap::new();
@@ -226,9 +220,7 @@ pub fn check_history(run: &CtrRun, recs: &[Rec], cfg: &CtrCfg, events: &[Event])
         for t in run.temps.iter().filter(|t| t.chunk == c) {
             files += 1;
             for &(k, v) in &t.entries {
-                if got.insert(k, v).is_some() {
-                    return Err(("ctr.key_in_two_partitions".into(), format!("k-mer {} appears twice within chunk {}", k, c)));
-                }
+                *got.entry(k).or_insert(0) += v;
             }
         }
         if files as u64 != n_parts {
